@@ -205,8 +205,11 @@ impl Directive {
 
                 if !context.last_segment().unwrap().borrow().is_empty() {
                     context.add_segment(Segment::new(new_type));
-                } else {
-                    context.last_segment().unwrap().borrow_mut().t = new_type;
+                } else if context.last_segment().unwrap().borrow().t != new_type {
+                    // Empty segment is reused, but origin of other memory type isn't valid for it
+                    let last_segment = context.last_segment().unwrap();
+                    last_segment.borrow_mut().t = new_type;
+                    last_segment.borrow_mut().address = 0;
                 }
             }
             Directive::Device => {
